@@ -324,10 +324,56 @@ def run(ctx: Ctx) -> None:
                        node=d.stmt, mod=mod)
 
 
+_TF3: Dict[Tuple[int, str], object] = {}
+
+
+def _holds_token_text(fn: ast.AST, e: ast.AST) -> bool:
+    """a local every binding of which is `<tok>.type` / `<tok>.value`, possibly `... if <tok> else None`"""
+    if not isinstance(e, ast.Name):
+        return False
+    defs = [st.value for st in walk_local(fn) if isinstance(st, ast.Assign) and any(isinstance(t, ast.Name) and t.id == e.id for t in st.targets)]
+
+    def tokattr(v: ast.AST) -> bool:
+        if isinstance(v, ast.IfExp):
+            sides = [x for x in (v.body, v.orelse) if not (isinstance(x, ast.Constant) and x.value is None)]
+            return len(sides) == 1 and tokattr(sides[0])
+        return isinstance(v, ast.Attribute) and v.attr in ("type", "value") and isinstance(v.value, ast.Name)
+    return bool(defs) and all(tokattr(v) for v in defs)
+
+
 def _admitted_keywords(pm: ParserModel, fname: str, cfg: CFG, n: Node) -> Optional[Set[str]]:
     """Token texts for which control can reach n: the innermost dominating test that
     compares the token's value/type with constants (== / in) on its T side, or a
     `self.lex.token_if(<consts>)` condition."""
+    # first the token-type facts: a variable bound to token_if(<constants>) whose possible types at n are known
+    fn_ = pm.fn(fname)
+    asked: Dict[str, Set[str]] = {}
+    for st in walk_local(fn_):
+        if isinstance(st, ast.Assign) and len(st.targets) == 1 and isinstance(st.targets[0], ast.Name) and isinstance(st.value, ast.Call):
+            r = pm.resolve(fname, st.value)
+            if r and r[0] == "lex" and r[1] in ("token_if", "token_if_val") and st.value.args and all(isinstance(a, ast.Constant) for a in st.value.args):
+                asked.setdefault(st.targets[0].id, set()).update(a.value for a in st.value.args)
+    if asked:
+        alias = {}
+        for st in walk_local(fn_):
+            if isinstance(st, ast.Assign) and len(st.targets) == 1 and isinstance(st.targets[0], ast.Name) and _holds_token_text(fn_, st.targets[0]):
+                v = st.value
+                if isinstance(v, ast.IfExp):
+                    v = v.body if not (isinstance(v.body, ast.Constant) and v.body.value is None) else v.orelse
+                if isinstance(v, ast.Attribute) and v.attr == "type" and isinstance(v.value, ast.Name):
+                    alias[st.targets[0].id] = v.value.id
+        from ..typefacts import TypeFacts
+        key = (id(cfg), "tf3")
+        tf = _TF3.get(key)
+        if tf is None:
+            tf = _TF3[key] = TypeFacts(cfg, resolve=lambda c: pm.resolve(fname, c), alias=alias)
+        cands = []
+        for v, S0 in asked.items():
+            k, S = tf.at(n, v)
+            if k == "in" and S and set(S) <= S0 and set(S) != S0:
+                cands.append(set(S))
+        if cands:
+            return min(cands, key=len)
     best: Optional[Set[str]] = None
     best_depth = -1
     doms = cfg.dominators().get(n.id, set())
@@ -339,7 +385,7 @@ def _admitted_keywords(pm: ParserModel, fname: str, cfg: CFG, n: Node) -> Option
         ks: Optional[Set[str]] = None
         if isinstance(c, ast.Compare) and len(c.ops) == 1:
             left = norm(c.left)
-            if left.endswith("tok_value") or left.endswith(".value") or left.endswith(".type") or left == "tok_type":
+            if left.endswith("tok_value") or left.endswith(".value") or left.endswith(".type") or left == "tok_type" or _holds_token_text(pm.fn(fname), c.left):
                 comp = c.comparators[0]
                 if isinstance(c.ops[0], ast.Eq) and isinstance(comp, ast.Constant):
                     ks = {comp.value}
